@@ -19,28 +19,28 @@ type Violation struct {
 }
 
 type logVer struct {
-	seq       uint64
-	lastIdx   uint64
-	lastTerm  uint64
+	seq      uint64
+	lastIdx  uint64
+	lastTerm uint64
 }
 
 type snapFile struct {
-	id     int
-	node   string
-	inc    int
-	idx    uint64
-	term   uint64
-	cfg    *Cfg
-	via    uint64
-	boot   bool
-	size   int64
-	hash   uint64
-	closed bool
-	seqNew uint64
-	cnt, chn, lst uint64
-	decodable bool
-	tainted   bool // flagged by C10 label/content oracle
-	seqClose uint64
+	id               int
+	node             string
+	inc              int
+	idx              uint64
+	term             uint64
+	cfg              *Cfg
+	via              uint64
+	boot             bool
+	size             int64
+	hash             uint64
+	closed           bool
+	seqNew           uint64
+	cnt, chn, lst    uint64
+	decodable        bool
+	tainted          bool // flagged by C10 label/content oracle
+	seqClose         uint64
 	mixOlderSameTerm bool // a chunk of an older snapshot, same term, was written into this (newer) file
 	mixOther         bool // any other label mismatch between a chunk and the file it was written to
 }
@@ -91,18 +91,18 @@ type NodeSh struct {
 	Inc  int
 	Live bool
 
-	haveLog bool
-	base    Entry
-	ents    []Entry
-	chains  []uint64 // chain hash per entry (0 when unanchored)
+	haveLog   bool
+	base      Entry
+	ents      []Entry
+	chains    []uint64 // chain hash per entry (0 when unanchored)
 	baseChain uint64
 	anchored  bool
 	kMark     uint64
 	hist      []logVer
 
-	pSet  bool
-	pTerm uint64
-	pVote string
+	pSet       bool
+	pTerm      uint64
+	pVote      string
 	voteByTerm map[uint64]string
 	voteSeq    map[uint64]uint64
 	termFloor  uint64
@@ -120,8 +120,10 @@ type NodeSh struct {
 	role     string
 
 	closedSnaps  []*snapFile
+	starting     bool   // between node.new and node.start
+	bootSnap     *Entry // label of the snapshot loaded while the current incarnation was being created
 	logVer       uint64 // number of mutations of the disk-log shadow so far
-	mixedInstall bool // the recorded mixed-snapshot defect happened on this node (narrow taint)
+	mixedInstall bool   // the recorded mixed-snapshot defect happened on this node (narrow taint)
 }
 
 func (n *NodeSh) lastIndex() uint64 {
@@ -175,17 +177,17 @@ type Monitor struct {
 	leaderSeq    map[uint64]uint64
 	msgLeader    map[uint64]string
 
-	msgs  map[uint64]*msgInfo
-	insts map[int]*fsmInst
-	snaps map[int]*snapFile
+	msgs    map[uint64]*msgInfo
+	insts   map[int]*fsmInst
+	snaps   map[int]*snapFile
 	sources []*snapFile // completed locally-taken snapshots
 
-	StaticVoters []string
+	StaticVoters  []string
 	membershipOps int
 	BecameLeader  []Event
 
-	Ops     map[string]*Op // by op id: merged call+ret
-	OpOrder []string
+	Ops      map[string]*Op // by op id: merged call+ret
+	OpOrder  []string
 	ackedSeq map[string]uint64
 
 	// hooks for the scenario engine (called under the monitor lock; must not call back)
@@ -200,14 +202,14 @@ type Monitor struct {
 	Phase string
 
 	// Puppet mode: one real node, peers played by the harness, requests strictly sequential.
-	start time.Time
-	evidenceNode string
+	start            time.Time
+	evidenceNode     string
 	staleCfgElection bool // the recorded membership defect happened in this run (narrow taint from then on)
 
 	// step counters for bounded-progress checks (C15): completed exchanges per directed link, candidacy rounds
-	LinkExch  map[[2]string]int
+	LinkExch    map[[2]string]int
 	rvRoundSeen map[string]bool
-	RVRounds  int
+	RVRounds    int
 
 	Puppet bool
 	// set once requests overlapped in a puppet case: exact before/after reasoning is off from then on
@@ -358,6 +360,25 @@ func (m *Monitor) feed(ev *Event) {
 		n.Inc = ev.Inc
 		n.Live = true
 		n.lastSample = nil
+		n.starting = true
+		n.bootSnap = nil
+	case KNodeStart:
+		n := m.node(ev.Node)
+		n.starting = false
+		// C14 / C11: a node that starts with a snapshot and a log that neither starts at the snapshot nor holds
+		// its last entry will answer (last index/term, prev-entry checks, votes) unlike a node with the full
+		// log and cannot be repaired by replication
+		if ev.Str == "" && n.bootSnap != nil && n.haveLog && n.base.Index < n.bootSnap.Index {
+			e := n.entry(n.bootSnap.Index)
+			m.Counts["c14.boot_consistency_checks"]++
+			if e == nil || e.Term != n.bootSnap.Term {
+				have := "no entry there"
+				if e != nil {
+					have = fmt.Sprintf("an entry of term %d there", e.Term)
+				}
+				m.violate(ev, []string{"C14", "C11"}, "restart-log-inconsistent-with-snapshot", n.ID, "node %s started with snapshot (index %d, term %d) and a log (%d,%d] that has %s: an interrupted installation was not completed", n.ID, n.bootSnap.Index, n.bootSnap.Term, n.base.Index, n.lastIndex(), have)
+			}
+		}
 	case KNodeBounce:
 		// Stop + Restart on the same object: like a restart, indices may go back to the snapshot
 		m.node(ev.Node).lastSample = nil
@@ -519,9 +540,16 @@ func (m *Monitor) onLogOpen(ev *Event) {
 			m.violate(ev, []string{"C04", "C12", "C14", "C06"}, "log-not-durable", n.ID, "node %s inc %d: reopened log differs from completed operations: %s", n.ID, ev.Inc, why)
 		}
 	}
+	keepTerm, trueTerm := n.haveLog && ev.Idx == n.base.Index && ev.Term != n.base.Term && n.base.Index != 0, n.base.Term
 	n.haveLog = true
 	n.base = Entry{Index: ev.Idx, Term: ev.Term}
+	if keepTerm {
+		// the reloaded boundary term is wrong (flagged above): the shadow keeps the truth so that later
+		// vote / boundary decisions are judged against what a node holding the full log would know
+		n.base.Term = trueTerm
+	}
 	n.ents = append([]Entry(nil), ev.Ents...)
+	n.bootSnap = nil
 	if n.kMark > n.lastIndex() {
 		n.kMark = n.lastIndex()
 	}
@@ -1128,6 +1156,9 @@ func (m *Monitor) onSnapOpen(ev *Event) {
 	if !known {
 		m.violate(ev, []string{"C13", "C11"}, "snapshot-unknown", n.ID, "node %s: SnapshotFile() returned (index %d, term %d, %d bytes) which is no snapshot completed on that node", n.ID, ev.Idx, ev.Term, ev.Num)
 	}
+	if n.starting {
+		n.bootSnap = &Entry{Index: ev.Idx, Term: ev.Term}
+	}
 	// the snapshot a node (re)loads must cover everything its log no longer holds
 	if n.haveLog && ev.Idx < n.base.Index {
 		m.violate(ev, []string{"C11", "C14"}, "snapshot-behind-log", n.ID, "node %s: SnapshotFile() returned the snapshot labelled %d but its log has been compacted through %d: entries %d..%d are gone", n.ID, ev.Idx, n.base.Index, ev.Idx+1, n.base.Index)
@@ -1517,10 +1548,10 @@ func (m *Monitor) MsgByID(id uint64) (Msg, uint64, uint64, bool) {
 func (n *NodeSh) Role() string { return n.role }
 
 // LastIndex / LastTerm of the disk-log shadow.
-func (n *NodeSh) LastIndex() uint64 { return n.lastIndex() }
-func (n *NodeSh) LastTerm() uint64  { return n.lastTerm() }
-func (n *NodeSh) BaseIndex() uint64 { return n.base.Index }
-func (n *NodeSh) HaveLog() bool     { return n.haveLog }
+func (n *NodeSh) LastIndex() uint64                { return n.lastIndex() }
+func (n *NodeSh) LastTerm() uint64                 { return n.lastTerm() }
+func (n *NodeSh) BaseIndex() uint64                { return n.base.Index }
+func (n *NodeSh) HaveLog() bool                    { return n.haveLog }
 func (n *NodeSh) PersistedState() (uint64, string) { return n.pTerm, n.pVote }
 func (n *NodeSh) SnapLabel() (uint64, uint64)      { return n.snapLabelIdx, n.snapLabelTerm }
 
